@@ -221,7 +221,7 @@ impl ReceiverInner {
     requires
         old(self).wf(), old(self).buffered().len() + payload@.len() < 0x1_0000_0000,     // ASSUMED: a delivery buffers fewer than 2^32 bytes
     ensures
-        r is Ok ==> final(self).incomplete_transfer is Some && final(self).buffered() =~= old(self).buffered() + payload@,   // [C10.more.buffered-in-order] while `more` is set the payload is only appended (arrival order) ...
+        r is Ok ==> final(self).incomplete_transfer is Some && final(self).buffered() =~= old(self).buffered() + payload@,   // [C10.more.buffered-in-order] while `more` is set the payload is only appended (arrival order) ... [C16.recv.partial-delivery-parked-in-receiver] and it is parked in the receiver itself, so a recv future dropped between two frames loses nothing
         r is Ok && old(self).incomplete_transfer is None ==> final(self).incomplete_transfer->Some_0.performative == transfer,
         final(self).wf(),
 //@@ entry
